@@ -10,6 +10,9 @@
     R m|m=v           `readonly m`                        L m|m=v         `typeset m`
     G m|m=v           `typeset -g m`                      U m… / UV m…    `unset m…` / `unset -v m…`
     T opts -- m|m=v…  `typeset opts m…` (opts among -g -r -x -X +x +r, in order)
+    TP n=v… opts -- m|m=v…  `n=v… typeset opts m…` (wave 3: temporary assignments before the regular
+                      built-in; `get_or_new(Local|Global)` carries a temporary variable of the
+                      operand's name down into the regular context, so its value outlives the command)
     D b opts -- m…    `typeset -p opts m…` (b = t), `export -p m…` (e), `readonly -p m…` (r)
     RET               `return 3` (inside a function body)
     SP a…             `set -- a…`
@@ -167,10 +170,13 @@ def operandOf (t : String) : Name × Option Value :=
   match splitAssign t with
   | (n, ov) => (n, ov.map Value.scalar)
 
+/-- a token `n=v` (as opposed to an option) in the prefix of a `TP` statement -/
+def isAssignToken (t : String) : Bool := t.toList.any (· == '=')
+
 /-- what a statement does, independently of the state: the operations come from `Exec.lean` -/
 inductive Action where
   | special (as : List (Name × AVal)) (ops : List Op)
-  | typeset (sc : Scope) (opts operands : List String)
+  | typeset (temps : List (Name × AVal)) (sc : Scope) (opts operands : List String)
   | print (b : String) (opts names : List String)
   | regular (kind : String) (temps : List (Name × AVal))
   | call (f : String) (temps : List (Name × AVal)) (args : List String)
@@ -186,9 +192,12 @@ def stmtAction (st : Stmt) : Action :=
   | "U" | "UV" => .special [] (unsetOps st.pre)
   | "SP" => .special [] [.setParams st.pre]
   | "RET" => .ret
-  | "L" => .typeset .loc [] st.pre
-  | "G" => .typeset .global ["-g"] st.pre
-  | "T" => .typeset (if st.pre.contains "-g" then .global else .loc) st.pre st.post
+  | "L" => .typeset [] .loc [] st.pre
+  | "G" => .typeset [] .global ["-g"] st.pre
+  | "T" => .typeset [] (if st.pre.contains "-g" then .global else .loc) st.pre st.post
+  | "TP" =>
+    let opts := st.pre.filter (fun t => !isAssignToken t)
+    .typeset (assigns (st.pre.filter isAssignToken)) (if opts.contains "-g" then .global else .loc) opts st.post
   | "D" => match st.pre with
     | [] => .bad
     | b :: opts => .print b opts st.post
@@ -218,11 +227,14 @@ def execStmts {σ} (I : Iface σ) (funs : List (String × List Stmt)) :
         | (s', false) => fin s' out
     | .ret => (s, out, .ret)
     | .bad => (s, "bad" :: out, .abort)
-    | .typeset sc opts operands =>
-      -- `typeset` is a regular built-in (volatile context around it) and survives errors
-      let s1 := (I.step s (.push .volatile)).1
-      let s2 := operands.foldl (typesetField I sc opts) s1
-      fin (I.step s2 .pop).1 out
+    | .typeset temps sc opts operands =>
+      -- `typeset` is a regular built-in (volatile context around it, holding the temporary
+      -- assignments, if any) and survives the errors of its operands
+      match runAssigns I .volatile true (I.step s (.push .volatile)).1 temps with
+      | (s1, true) => (s1, out, .abort)
+      | (s1, false) =>
+        let s2 := operands.foldl (typesetField I sc opts) s1
+        fin (I.step s2 .pop).1 out
     | .print b opts names =>
       let s1 := if b = "t" then (I.step s (.push .volatile)).1 else s
       -- `export -p m` / `readonly -p m` of a name that is not a variable: error in a special
